@@ -129,6 +129,9 @@ pub const TOKB: &[&str] = &[
     "--- \"a/f\\ng\"\n",
     "+++ \"b/f\\\"g\\\\\"\n",
     "--- \"a/\\303\\251\"\n",
+    "--- \"a/f\\vg\"\n",
+    "+++ \"b/f\\013g\"\n",
+    "+++ \"b/f\\fg\\rh\\ti\"\n",
     "diff --git \"a/f g\" \"b/f g\"\n",
     "--- a/f\t(revision 1)\n",
     "+++ b/f   \n",
